@@ -22,26 +22,67 @@ def primWith (pred : Prim → Bool) : OT → Bool
   | .prim p => pred p
   | _ => false
 
-/-- **operator classes** (kernel-checked over the complete table): arithmetic only on integers and char8; bitwise and
-    shift only on the fixed-width unsigned integers; negation only on signed integers; complement on fixed-width
-    unsigned integers and bool; ordering never on pointers; nothing at all on aggregates -/
-theorem op_classes :
-    (∀ op ∈ [Op.add, .sub, .mul, .div, .mod], ∀ t ∈ allOTs, validFor op t = true →
-        primWith (fun p => isIntegral p || p == .char8) t = true) ∧
-    (∀ op ∈ [Op.band, .bor, .bxor, .shl, .shr], ∀ t ∈ allOTs, validFor op t = true →
-        primWith isFixedUnsigned t = true) ∧
-    (∀ t ∈ allOTs, validFor .neg t = true → primWith isSignedP t = true) ∧
-    (∀ t ∈ allOTs, validFor .compl t = true → primWith (fun p => isFixedUnsigned p || p == .bool) t = true) ∧
-    (∀ op ∈ [Op.lt, .le, .gt, .ge], validFor op .pointer = false) ∧
-    (∀ op ∈ allOps, validFor op .other = false) := by
-  refine ⟨?_, ?_, ?_, ?_, ?_, ?_⟩ <;> decide
+theorem allPrims_complete (p : Prim) : p ∈ allPrims := by cases p <;> decide
 
-/-- the table is complete: `allOTs` lists every operand type -/
-theorem allOTs_complete (t : OT) : t ∈ allOTs := by
-  cases t with
-  | prim p => cases p <;> decide
-  | pointer => decide
-  | other => decide
+/-- no operator other than `==` / `!=` accepts a pointer, and none accepts an aggregate -/
+theorem pointer_only_equality (op : Op) (t : OT) (h : validFor op (.pointer t) = true) : op = .eq ∨ op = .ne := by
+  cases op <;> simp [validFor] at h ⊢
+
+theorem other_never (op : Op) : validFor op .other = false := by
+  cases op <;> simp [validFor]
+
+theorem op_classes_prim :
+    (∀ op ∈ [Op.add, .sub, .mul, .div, .mod], ∀ p ∈ allPrims, validFor op (.prim p) = true →
+        (isIntegral p || p == .char8) = true) ∧
+    (∀ op ∈ [Op.band, .bor, .bxor, .shl, .shr], ∀ p ∈ allPrims, validFor op (.prim p) = true → isFixedUnsigned p = true) ∧
+    (∀ p ∈ allPrims, validFor .neg (.prim p) = true → isSignedP p = true) ∧
+    (∀ p ∈ allPrims, validFor .compl (.prim p) = true → (isFixedUnsigned p || p == .bool) = true) := by
+  refine ⟨?_, ?_, ?_, ?_⟩ <;> decide
+
+/-- **operator classes**, for every operand type: arithmetic only on integers and char8; bitwise and shift only on
+    the fixed-width unsigned integers; negation only on signed integers; complement on fixed-width unsigned integers
+    and bool; ordering never on pointers; nothing at all on aggregates -/
+theorem op_classes :
+    (∀ op ∈ [Op.add, .sub, .mul, .div, .mod], ∀ t, validFor op t = true →
+        primWith (fun p => isIntegral p || p == .char8) t = true) ∧
+    (∀ op ∈ [Op.band, .bor, .bxor, .shl, .shr], ∀ t, validFor op t = true → primWith isFixedUnsigned t = true) ∧
+    (∀ t, validFor .neg t = true → primWith isSignedP t = true) ∧
+    (∀ t, validFor .compl t = true → primWith (fun p => isFixedUnsigned p || p == .bool) t = true) ∧
+    (∀ op ∈ [Op.lt, .le, .gt, .ge], ∀ t, validFor op (.pointer t) = false) ∧
+    (∀ op, validFor op .other = false) := by
+  obtain ⟨h1, h2, h3, h4⟩ := op_classes_prim
+  refine ⟨?_, ?_, ?_, ?_, ?_, other_never⟩
+  · intro op hop t h
+    cases t with
+    | prim p => exact h1 op hop p (allPrims_complete p) h
+    | pointer t => have := pointer_only_equality op t h; rcases this with rfl | rfl <;> simp at hop
+    | other => simp [other_never] at h
+  · intro op hop t h
+    cases t with
+    | prim p => exact h2 op hop p (allPrims_complete p) h
+    | pointer t => have := pointer_only_equality op t h; rcases this with rfl | rfl <;> simp at hop
+    | other => simp [other_never] at h
+  · intro t h
+    cases t with
+    | prim p => exact h3 p (allPrims_complete p) h
+    | pointer t => have := pointer_only_equality _ t h; simp at this
+    | other => simp [other_never] at h
+  · intro t h
+    cases t with
+    | prim p => exact h4 p (allPrims_complete p) h
+    | pointer t => have := pointer_only_equality _ t h; simp at this
+    | other => simp [other_never] at h
+  · intro op hop t
+    cases h : validFor op (.pointer t) with
+    | false => rfl
+    | true => have := pointer_only_equality op t h; rcases this with rfl | rfl <;> simp at hop
+
+/-- pointers to different types are different types: `&a == &b` with `a: i32, b: u32` is E551 -/
+theorem pointer_mismatch (op : Op) (s t : OT) (h : s ≠ t) : binaryVerdict op (.pointer s) (.pointer t) = 551 := by
+  apply mismatch_is_E551
+  intro he
+  injection he with he
+  exact h he
 
 /-- **`as` only between primitive types, never into bool, never the identity**: complete 13 × 13 table -/
 theorem cast_classes :
